@@ -11,7 +11,7 @@ from fractions import Fraction
 from ..core import frac, call_real
 
 ID = "C04"
-LEAN_MODULE = "CKT.Props.C04Mass"
+LEAN_MODULE = "CKT.Props.C04LawU"
 THEOREMS = [
     "CKT.C04.infinite_budget", "CKT.C04.mem_allExact", "CKT.C04.allExact_no_zero", "CKT.C04.refuses_small_budget",
     "CKT.C04.visited_ge", "CKT.C04.dfs_full_ge", "CKT.C04.mem_visited", "CKT.C04.dfs_complete",
@@ -20,6 +20,12 @@ THEOREMS = [
     "CKT.C04.zeroSmall_zero", "CKT.C04.finish_mass", "CKT.C04.visited_eq", "CKT.C04.sum_weighted_split", "CKT.C04.dfs_mass",
     "CKT.C04.genSorted_mass", "CKT.C04.sortPerm_perm", "CKT.C04.applyPerm_sum", "CKT.C04.genUnsorted_mass", "CKT.C04.top_table",
     "CKT.C04.exact_plus_tail",
+    # T04.4 unbiased tail (Props/C04Law, C04LawU): the law of the recursive sampler through the yielded tables, at every node and at the top
+    # level, in sorted order and — through the permutation wrapper — in caller order
+    "CKT.C04.law_congr", "CKT.C04.dfs_keys", "CKT.C04.find_restrict", "CKT.C04.node_law", "CKT.C04.dfs_none_nil", "CKT.C04.dfs_law",
+    "CKT.C04.genSorted_law", "CKT.C04.law_normTop_top", "CKT.C04.tail_unbiased",
+    "CKT.C04.relab_inj", "CKT.C04.probOf_relab", "CKT.C04.unPerm_getD", "CKT.C04.dfs_valid", "CKT.C04.genUnsorted_eq", "CKT.C04.find_relab",
+    "CKT.C04.lawU_eq", "CKT.C04.relab_unrelab", "CKT.C04.genUnsorted_law", "CKT.C04.tail_unbiased_caller_order",
 ]
 RULE = ("1-4 probability vectors with 1-8 (thorough: up to 58) entries each: dyadic synthetic vectors (zeros, ties, near-zero entries; float arithmetic "
         "exact) and real gate bases; budgets N in [1, 1e6] integer / fractional / infinity; numpy.random.choice replaced by a scripted oracle whose "
@@ -216,7 +222,9 @@ def model_line(kind, payload):
 
 def _real_weights(payload):
     out, sc = _run_weights(payload)
-    return {"ok": {str([int(i) for i in k]): [frac(v[0]), v[1].name] for k, v in out.items()}, "draws": [c["out"] for c in sc.calls]}
+    return {"ok": {str([int(i) for i in k]): [frac(v[0]), v[1].name] for k, v in out.items()}, "draws": [c["out"] for c in sc.calls],
+            # the probability vector of every sampler call, in call order (compared with the model's `samplerCalls`)
+            "calls": [[float(x) for x in c["p"]] for c in sc.calls]}
 
 
 def run_real(kind, payload):
@@ -244,7 +252,7 @@ def model_canon(kind, payload, out):
         return {"error": out["error"]}
     if kind == "gen_sorted":
         return {"ok": out["ok"]}
-    return {"ok": {str(w["key"]): [w["w"], w["ty"]] for w in out["ok"]}}
+    return {"ok": {str(w["key"]): [w["w"], w["ty"]] for w in out["ok"]}, "calls": out.get("calls")}
 
 
 def _close(a, b):
@@ -268,6 +276,14 @@ def compare(kind, payload, real, model):
             elif len(x["arr"]) != len(y["arr"]) or not all(_close(Fraction(a), b) for a, b in zip(x["arr"], y["arr"])):
                 return f"conditional table mismatch real={x} model={y}"
         return None
+    rc, mc = real.get("calls"), model.get("calls")
+    if rc is not None and mc is not None:
+        if [len(c) for c in rc] != [len(c) for c in mc]:
+            return f"sampler calls: real {[len(c) for c in rc]} probability vectors, model {[len(c) for c in mc]}"
+        tol = 1e-9 if payload.get("approx") else 1e-12
+        for k, (a, b) in enumerate(zip(rc, mc)):
+            if any(abs(x - float(Fraction(y))) > tol for x, y in zip(a, b)):
+                return f"sampler call {k}: real p={a[:8]} model p={[float(Fraction(y)) for y in b][:8]}"
     ra, ma = real["ok"], model["ok"]
     if set(ra) != set(ma):
         return f"key sets differ: only real {sorted(set(ra) - set(ma))[:5]} only model {sorted(set(ma) - set(ra))[:5]}"
